@@ -210,6 +210,8 @@ val skipn : nat -> 'a1 list -> 'a1 list
 
 val nodup : ('a1 -> 'a1 -> bool) -> 'a1 list -> 'a1 list
 
+val seq : nat -> nat -> nat list
+
 val repeat : 'a1 -> nat -> 'a1 list
 
 module Z :
@@ -746,6 +748,8 @@ val oid_eqb : z list -> z list -> bool
 
 val attr_by_name : attr list -> str -> attr option
 
+val attr_by_oid : attr list -> z list -> attr option
+
 val vendor_index_by_name : vendor list -> str -> nat -> nat option
 
 val vendor_by_name_or_number : vendor list -> str -> z -> bool
@@ -791,6 +795,41 @@ val parse_file : bool -> (str -> (str * bytes) option) -> nat -> recur_t
 val parse_root :
   bool -> (str -> (str * bytes) option) -> nat -> str -> bytes -> dict
   pres * ioev list
+
+type heap = vendor list
+
+type pdict = { p_attrs : attr list; p_values : value list;
+               p_vendors : nat list }
+
+val deref : heap -> nat -> vendor
+
+val view : heap -> pdict -> dict
+
+val ptr_by_name : heap -> nat list -> str -> nat option
+
+val ptr_by_number : heap -> nat list -> z -> nat option
+
+val index_by_number : heap -> nat list -> z -> nat -> nat option
+
+val opt_nat_eqb : nat option -> nat option -> bool
+
+val attr_clash : attr list -> attr -> bool
+
+val e_merge_attr : n
+
+val e_merge_vendor : n
+
+val e_merge_vattr : n
+
+val check_attrs : pdict -> pdict -> bool
+
+val check_vendors : heap -> pdict -> nat list -> n option
+
+val assemble : bool -> heap -> nat list -> nat list -> heap * nat list
+
+val merge : bool -> heap -> pdict -> pdict -> (heap * pdict) res
+
+val load : heap -> dict -> heap * pdict
 
 type key = n * n
 
@@ -1267,5 +1306,11 @@ val t_trace : ioev list -> tok list
 val opener_of : bytes list -> bytes -> (bytes * bytes) option
 
 val dispatch_dict : bytes -> bytes list -> z list -> tok list option
+
+val load_all : heap -> bytes list -> (heap * pdict list) option
+
+val chain : bool -> heap -> pdict -> pdict list -> (heap * pdict) res
+
+val dispatch_merge : bytes -> bytes list -> z list -> tok list option
 
 val dispatch : bytes -> bytes list -> z list -> tok list
